@@ -190,18 +190,6 @@ Proof.
   intros H; inversion H; subst. eexists _, _, _, _. repeat split; eassumption.
 Qed.
 
-(** * What the checker demands of a pattern under construction and the generator does not check *)
-Fixpoint pat_wf (p:pat) : bool :=
-  match p with
-  | EVar _ | SVar _ | Sym _ => true
-  | MVar _ ef _ _ _ holes => negb (existsb (fun h => mem h ef) holes)        (* MetaVar well-formedness *)
-  | Imp l r | App l r => pat_wf l && pat_wf r
-  | Ex _ q => pat_wf q
-  | Mu X q => pat_wf q && pat_positive q X                                   (* D9a *)
-  | ESub q x plug => pat_wf q && pat_wf plug && (negb (is_redundant_subst p) && is_meta_head q)   (* D9b *)
-  | SSub q X plug => pat_wf q && pat_wf plug && (negb (is_redundant_subst p) && is_meta_head q)
-  end.
-
 Lemma tindex_nth {A} (f:term -> A) t l i : tindex t l = Some i -> nth_error (map f l) (N.to_nat i) = Some (f t).
 Proof.
   revert i. induction l as [|x l IH]; simpl; intros i H; [discriminate|].
@@ -384,31 +372,6 @@ End Spec.
 End PE.
 
 (** * Proof terms *)
-(** the checker's [Instantiate] computes what the generator's [instantiate] advertised
-    (fails on: metavariable constraints violated by a plug -- D9d; a substitution the generator
-    dropped or applied without the checker's capture check -- D9c/D9d) *)
-Definition inst_agree (c:pat) (d:delta) : bool :=
-  match inst G c (rev (dkeys d)) (rev (dvals d)) with
-  | Some r => pat_eqb r (py_inst d c)
-  | None => false
-  end.
-
-(** exactly the places where the generator is laxer than the checker *)
-Fixpoint wf_for_checker (axs:list pat) (t:pterm) : bool :=
-  match t with
-  | PMP a b => wf_for_checker axs a && wf_for_checker axs b
-  | PGen a _ => wf_for_checker axs a
-  | PDynInst a d =>
-      wf_for_checker axs a &&
-      match d with
-      | [] => true
-      | _ => forallb pat_wf (dvals d) &&
-             match static_conc axs a with Some c => inst_agree c d | None => false end
-      end
-  | PInst a _ => wf_for_checker axs a
-  | _ => true
-  end.
-
 Lemma nlen_rev_keys (d:delta) : nlen d = nlen (rev (dkeys d)).
 Proof. unfold nlen, dkeys. rewrite rev_length, map_length. reflexivity. Qed.
 Lemma len_plugs_ids {A} (f:pat -> A) (d:delta) : length (map f (rev (dvals d))) = length (rev (dkeys d)).
@@ -560,14 +523,6 @@ Proof. one_step. Qed.
 Lemma run_pub_proof K M C p : runs Proof [30] (mkst (TProved p :: K) M (p :: C)) (mkst K M C).
 Proof. intros rest. simpl app. rewrite exec_cons. unfold step. simpl. rewrite pat_eqb_refl. reflexivity. Qed.
 
-Fixpoint loads_in_axioms (t:pterm) (axs:list pat) : bool :=
-  match t with
-  | PMP a b => loads_in_axioms a axs && loads_in_axioms b axs
-  | PGen a _ | PDynInst a _ | PInst a _ => loads_in_axioms a axs
-  | PLoadAxiom p => pmem p axs
-  | _ => true
-  end.
-
 Lemma loads_in_axioms_ok t axs mem : (forall a, In a axs -> In (TProved a) mem) ->
   loads_in_axioms t axs = true -> loads_ok t mem = true.
 Proof.
@@ -666,11 +621,10 @@ Qed.
 
 Variable axs : list pat.
 
-Definition proof_ok (t:pterm) : bool := dynamic t && wf_for_checker axs t && loads_in_axioms t axs.
 
 Lemma proof_exec ts : forall mem cs m' tbl s tbl' s' bs K,
   proof_calls inS loads false axs ts mem = Some (cs, m') -> s_mem s = mem -> s_phase s = Proof ->
-  ser_run cs tbl s = Some (tbl', s', bs) -> forallb proof_ok ts = true -> mem_shape_ok mem ->
+  ser_run cs tbl s = Some (tbl', s', bs) -> forallb (proof_ok axs) ts = true -> mem_shape_ok mem ->
   (forall a, In a axs -> In (TProved a) mem) -> ext T tbl' ->
   runs Proof bs (mkst K (map mt mem) (map ms (s_claims s))) (mkst K (map mt m') (map ms (s_claims s')))
   /\ s_claims s' = skipn (length ts) (s_claims s).
@@ -705,11 +659,6 @@ Proof.
 Qed.
 
 End ME.
-
-Definition module_ok (m:pmodule) : bool :=
-  forallb pat_wf (m_axioms m) && forallb pat_wf (m_claims m) &&
-  forallb (proof_ok (m_axioms m)) (m_proofs m) &&
-  Nat.eqb (length (m_claims m)) (length (m_proofs m)).      (* every declared claim is discharged *)
 
 Lemma serialize_with_accepted inS loads m g c p :
   module_ok m = true -> serialize_with inS loads m = Some (g, c, p) ->
